@@ -19,6 +19,14 @@ C15.cfg    the per-request limit multi_stream applies is the value of its own
 C15.synth  a reply a client transport makes up itself from the *request*
            (SERVFAIL of the load balancer) is marked as a response (QR set):
            it has to satisfy is_answer for its own request like any reply.
+C15.timer  the stream transport restarts its response timer (state =
+           Active(Some(now))) for an incoming message only after that message
+           was matched to an outstanding request: unrelated or wrong-ID
+           messages cannot keep a request waiting beyond its timeout.
+C15.xfr    check_stream calls a message of a zone-transfer stream an answer
+           (third result true) only on paths on which is_answer held for it
+           or its question section was seen to be empty (RFC 5936 2.2.2) --
+           in every stream state, not only for the first message.
 C15.once   stream demux removes the slot before delivery and re-inserts only
            for unfinished streams; Queries keeps `count` in step with the
            occupied slots (decrement only when a slot was actually vacated).
@@ -27,7 +35,7 @@ import re
 
 from mirlib import BranchFacts, strip, deep_strip, show, walk, const_value
 from rulelib import (
-    bool_facts, facts_at, fmt_path, must_pass, outcome_facts, return_assignments, succeeded_calls, failed_calls,
+    flow_states, bool_facts, facts_at, fmt_path, must_pass, outcome_facts, return_assignments, succeeded_calls, failed_calls,
 )
 
 NC = "net::client::"
@@ -50,6 +58,8 @@ def run(ctx):
     rule_dgdl(ctx, F)
     rule_cfg(ctx, F)
     rule_synth(ctx, F)
+    rule_timer(ctx, F)
+    rule_xfr(ctx, F)
 
 
 def _has_fact(facts, pred):
@@ -336,6 +346,27 @@ def rule_slot(ctx, F):
                    "Queries::insert picks an index for the new request without having checked that the slot is empty: a request "
                    "that is still outstanding is overwritten and its ID goes out a second time -- the answer to the old request is "
                    "delivered to the new one", b.where(bi))
+    # the same search written with an iterator adaptor: (curr..len).find(|&idx| self.vec[idx].is_none())
+    from mirlib import closures_created_in
+    for bi, cb, cops in closures_created_in(F, b):
+        used = [bb for bb, tt in b.calls() if re.search(r"Iterator::(find|position)$", tt["fn"] or "")]
+        if not used:
+            continue
+        rets = return_assignments(cb)
+        n += 1
+        def _vacancy_test(r):
+            if r[3] is not None:
+                return bool(re.search(r"is_none\(.*\.vec", show(deep_strip(r[3]))))
+            if str(r[2]).startswith("call:") and str(r[2]).endswith("::is_none"):
+                cs = cb.calls_matching(r"Option::<.*>::is_none$")
+                from mirlib import resolve_captures
+                return len(cs) == 1 and ".vec" in show(deep_strip(resolve_captures(F, cb, cb.term_of_operand(cs[0][1]["args"][0]))))
+            return False
+        vac = bool(rets) and all(_vacancy_test(r) for r in rets)
+        ctx.ob(R, b, "candidate index #%d was seen vacant" % n, vac,
+               "Queries::insert searches for a free slot with a predicate that is not `slot is empty`: a request that is still "
+               "outstanding is overwritten and its ID goes out a second time", b.where(bi))
+
 
 
 def rule_dgdl(ctx, F):
@@ -454,3 +485,84 @@ def rule_synth(ctx, F):
                "%s builds a reply from the request's header and never sets QR: the caller gets Ok(message) that is not a "
                "response and does not satisfy is_answer for its own request" % p.split("::")[-2])
     ctx.ob(R, "net::client", "scanned", n >= 1, "no reply synthesised from a request found any more", nontrivial=False)
+
+
+def rule_timer(ctx, F):
+    R = "C15.timer"
+    ctx.floor(R, 1)
+    bs = [b for p, b in F.bodies.items() if re.search(r"^net::client::stream::Transport::<.*>::demux_reply::\{closure#0\}$", p)]
+    if not ctx.anchor(R, "stream::Transport::demux_reply", len(bs) == 1):
+        return
+    b = bs[0]
+    rem = b.calls_matching(r"stream::Queries::<.*>::try_remove$")
+    if not ctx.anchor(R, "try_remove in demux_reply", len(rem) == 1, b.where()):
+        return
+    rbb = rem[0][0]
+    resets = []
+    for bi in b.reachable_blocks():
+        if b.blocks[bi].get("c"):
+            continue
+        for st in b.blocks[bi]["s"]:
+            if st[0] == "=" and st[2][0] == "agg" and st[2][1][0] == "adt" and st[2][1][1].endswith("stream::ConnState") \
+                    and "Active" in str(st[2][1]):
+                tm = deep_strip(b.term_of_rvalue(st[2]))
+                if any(s[0] == "call" and (s[1] or "").endswith("Instant::now") for s in walk(tm)):
+                    resets.append(bi)
+    if not ctx.anchor(R, "timer restart (ConnState::Active(Some(Instant::now()))) in demux_reply", len(resets) >= 1, b.where()):
+        return
+    for bi in resets:
+        matched = False
+        if b.dominates(rbb, bi):
+            for tm, out in outcome_facts(b, bi, F):
+                if out == "success" and any(s[0] == "call" and (s[1] or "").endswith("::try_remove") for s in walk(tm)):
+                    matched = True
+        ctx.ob(R, b, "the response timer restarts only for a message that belongs to an outstanding request", matched,
+               "demux_reply restarts the response timer for every message read from the stream, before it looks the ID up: a "
+               "peer that keeps sending well-formed messages with unknown IDs keeps every pending request waiting for ever, "
+               "past its response timeout", b.where(bi))
+
+
+def rule_xfr(ctx, F):
+    R = "C15.xfr"
+    ctx.floor(R, 2)
+    bs = [b for p, b in F.bodies.items() if re.search(r"^net::client::stream::check_stream$", p)]
+    if not ctx.anchor(R, "stream::check_stream", len(bs) == 1):
+        return
+    b = bs[0]
+    def on_call(bb, term, st):
+        return st
+    def on_edge(bb, lab, fact, st):
+        if fact is None:
+            return st
+        tm, v = fact
+        s = show(tm)
+        if "is_answer(" in s and v is True:
+            return "matched"
+        m = re.match(r"^(Eq|Ne)\((.*qdcount\(.*\)), 0\)$|^(Eq|Ne)\(0, (.*qdcount\(.*\))\)$", s)
+        if m and v is ((m.group(1) or m.group(3)) == "Eq"):
+            return "matched"
+        if "qdcount(" in s and isinstance(v, int) and not isinstance(v, bool) and v == 0:
+            return "matched"
+        return st
+    at = flow_states(b, F, "unmatched", on_call, on_edge)
+    if at is None:
+        ctx.undecided_item(R, b.path, "state exploration exceeded its budget")
+        return
+    sites = []
+    for bi in b.reachable_blocks():
+        if b.blocks[bi].get("c"):
+            continue
+        for st in b.blocks[bi]["s"]:
+            if st[0] == "=" and st[1] == [0] and st[2][0] == "agg" and st[2][1][0] == "tuple" and len(st[2][2]) == 3:
+                third = st[2][2][2]
+                if third[0] == "k" and third[2] in (1, True):
+                    sites.append(bi)
+    if not ctx.anchor(R, "returns of check_stream that call the message an answer", len(sites) >= 2, b.where()):
+        return
+    for i, bi in enumerate(sorted(sites)):
+        states = at.get(bi, set())
+        ctx.ob(R, b, "answer#%d only for a message whose question was compared (or is empty)" % (i + 1),
+               states and "unmatched" not in states,
+               "check_stream reports a message as the answer to the transfer request on a path on which neither is_answer held "
+               "nor the question section was seen empty (only the first message of a transfer is compared): a later message "
+               "with the same ID and a foreign question is handed to the caller as part of its transfer", b.where(bi))
